@@ -399,7 +399,7 @@ def run_C12(ctx):
         cases, paths = [], []
         for i in range(n):
             for kind in KINDS:
-                g = gram.random_usable(rnd, nT=rnd.randint(1, 4), nN=rnd.randint(1, 4), p_term=rnd.choice([0.4, 0.6]), max_alts=3)
+                g = gram.random_usable(rnd, nT=rnd.randint(1, 4), nN=rnd.randint(1, 4), p_term=rnd.choice([0.4, 0.6]), max_alts=3, p_prec=rnd.choice([0.0, 0.6]))
                 desc = None
                 if kind == 'type_without_rule':
                     sp = front.decorate(g, rnd, actions=False)
